@@ -243,10 +243,15 @@ fn frame_from_stderr(tail: &str) -> String {
 }
 
 fn death_result(seed: u64, prop: &str, kind: &str, entry: &str, frame: &str, detail: String) -> RunResult {
+    // asset-buffer scenarios are classified per format and kind (see props/assets.rs)
+    let sig = match entry.strip_prefix("asset:") {
+        Some(format) => format!("{}|asset|{}|{}", prop, format, kind.split('|').next().unwrap_or(kind)),
+        None => format!("{}|{}|{}", prop, kind, frame),
+    };
     RunResult {
         seed,
         violation: Some(Violation {
-            sig: format!("{}|{}|{}", prop, kind, frame),
+            sig,
             msg: format!("worker died ({}) during {}: {}", kind, entry, detail),
         }),
         ..Default::default()
